@@ -55,7 +55,11 @@ func main() {
 		if len(os.Args) < 4 {
 			usage()
 		}
-		os.Exit(replayMain(os.Args[2], os.Args[3]))
+		traceOut := ""
+		if len(os.Args) > 4 {
+			traceOut = os.Args[4]
+		}
+		os.Exit(replayMain(os.Args[2], os.Args[3], traceOut))
 	case "selftest-determinism":
 		os.Exit(selftestDeterminism(os.Args[2:]))
 	case "list":
@@ -395,6 +399,7 @@ func driverMain(args []string) int {
 	all := &workerResult{Stats: total, MismatchRun: -1}
 	var viols []workerViolation
 	trouble := false
+	shrunkClass := map[string]bool{}
 	for w := range outs {
 		o := outs[w]
 		if o.err != "" {
@@ -406,6 +411,9 @@ func driverMain(args []string) int {
 			viols = append(viols, o.res.Violations...)
 		}
 		if o.crash != nil {
+			if shrunkClass[o.crash.V.Class()] {
+				continue // a failure of this class is already confirmed and reported
+			}
 			// confirm a process-level failure by re-executing that run alone
 			cbin := bin
 			if w >= nw {
@@ -418,6 +426,11 @@ func driverMain(args []string) int {
 					w, o.crash.Run, o.crash.V.Kind, r.exit, o.crash.V.Detail)
 				trouble = true
 				continue
+			}
+			if cl := o.crash.V.Class(); !shrunkClass[cl] {
+				// only the first failure of a class is minimised (bounded cost)
+				shrunkClass[cl] = true
+				o.crash.Shrink = shrinkCrash(cbin, o.crash, tmpDir)
 			}
 			viols = append(viols, *o.crash)
 		}
@@ -582,4 +595,80 @@ func replayDriver(args []string) int {
 	}
 	fmt.Fprintf(os.Stderr, "harness trouble: exit %d\n%s\n", r.exit, tailStr(r.stderr, 3000))
 	return 2
+}
+
+// shrinkCrash minimises a process-level failure (hang, fatal error, race
+// report) with child processes: the trace of the failing run is captured
+// through the choice sink, then shrunk while a fresh child process still fails
+// with the same kind. Bounded by attempts and wall time.
+func shrinkCrash(bin string, wv *workerViolation, tmpDir string) string {
+	b, err := os.ReadFile(wv.File)
+	if err != nil {
+		return ""
+	}
+	var rf ReplayFile
+	if json.Unmarshal(b, &rf) != nil {
+		return ""
+	}
+	kind := wv.V.Kind
+	os.Setenv("VERIF_HANG_S", "4")
+	defer os.Unsetenv("VERIF_HANG_S")
+	traceFile := filepath.Join(tmpDir, "crash.trace")
+	cand := filepath.Join(tmpDir, "crash-cand.json")
+	prog := filepath.Join(tmpDir, "crash.progress")
+	fails := func(rf *ReplayFile, traceOut string) bool {
+		writeJSON(cand, rf)
+		args := []string{"replay-child", cand, prog}
+		if traceOut != "" {
+			args = append(args, traceOut)
+		}
+		r := runChild(30*time.Second, bin, args...)
+		k, _ := crashKind(r)
+		return k == kind
+	}
+	// 1. capture the trace of the failing run
+	os.Remove(traceFile)
+	if !fails(&rf, traceFile) {
+		return "not minimised (the failure did not recur while capturing its trace)"
+	}
+	tb, _ := os.ReadFile(traceFile)
+	var trace []uint64
+	for _, l := range strings.Split(string(tb), "\n") {
+		if v, err := strconv.ParseUint(strings.TrimSpace(l), 10, 64); err == nil {
+			trace = append(trace, v)
+		}
+	}
+	if len(trace) == 0 {
+		return "not minimised (empty trace)"
+	}
+	start := time.Now()
+	budget, limit := 150, 90*time.Second
+	if kind == "hang" {
+		budget, limit = 12, 60*time.Second // every reproducing attempt costs a watchdog period
+	}
+	min, attempts := simkit.Shrink(trace, budget, func(t []uint64) (bool, []uint64) {
+		if time.Since(start) > limit {
+			return false, nil
+		}
+		c := rf
+		c.Trace = t
+		if c.Trace == nil {
+			c.Trace = []uint64{}
+		}
+		if fails(&c, "") {
+			return true, t
+		}
+		return false, nil
+	})
+	rf.Trace = min
+	if rf.Trace == nil {
+		rf.Trace = []uint64{}
+	}
+	if !fails(&rf, "") {
+		return "not minimised (minimised trace did not fail again)"
+	}
+	rf.Shrink = fmt.Sprintf("process-level failure minimised with child processes: trace %d -> %d choices in %d attempts", len(trace), len(min), attempts)
+	rf.Note = "process-level failure (" + kind + "); the scenario is regenerated from the trace"
+	writeJSON(wv.File, &rf)
+	return rf.Shrink
 }
